@@ -941,6 +941,9 @@ func (a *Activity) GobDecode(data []byte) error {
 
 // Equals verifies if our receiver Object is equals with the "with" Object
 func (a Activity) Equals(with Item) bool {
+	if IsNil(with) {
+		return false
+	}
 	result := true
 	err := OnActivity(with, func(w *Activity) error {
 		_ = OnIntransitiveActivity(a, func(oi *IntransitiveActivity) error {
